@@ -1,7 +1,7 @@
 // U-sched: the scheduler core under contract (C01-C06, C08, C15, C16, C19 function-level parts).
 //@@ unit U-sched
 //@@ default props=C02 rewrites=R1,R2,R3,R5,R13 ghost="Tracked(h): Tracked<&mut Heap>" ghostarg="Tracked(h)" loopinv="h.wf(), fwd(*old(h), *h)," bodyprelude="broadcast use {lemma_fwd_refl, lemma_fwd_trans};" attr="#[verifier::exec_allows_no_decreases_clause] #[verifier::loop_isolation(false)]"
-//@@ heapmethods state set_state set_err err children children_in next parent siblings task set_task sched_task emit_task_event emit_proc_event eval init run review error exec is_ready emit_task emit_error create_task push root set_data flag set_flag prev start_time update_data outputs is_event_processed prepare is_auto_complete abort_task back_task undo_task redo_task action set_action get_var get_var_or_default dispatch_act backs backs_step create_context set_message_with update arm_cancel
+//@@ heapmethods state set_state set_err err children children_in next parent siblings task set_task sched_task emit_task_event emit_proc_event eval init run review error exec is_ready emit_task emit_error create_task push root set_data flag set_flag prev start_time update_data outputs is_event_processed prepare is_auto_complete abort_task back_task undo_task redo_task action set_action get_var get_var_or_default dispatch_act backs backs_step create_context set_message_with update arm_cancel do_action
 use vstd::prelude::*;
 use std::sync::Arc;
 verus! {
@@ -229,6 +229,41 @@ impl Task {
             forall|i: int| 0 <= i < __v2@.len() ==> (#[trigger] __v2@[i]).id@ != self.id@,
             //# self-untouched
             h.tasks[self.id@] == old(h).tasks[self.id@] && h.cur == old(h).cur,
+//@@ end
+}
+
+// ---- admission (oracle: property C05): the action names an existing task, the task kind fits the action
+//      (steps for push, acts for everything else) and every declared output is supplied
+pub open spec fn admissible(h: Heap, a: Action) -> bool {
+    &&& h.has(a.tid@)
+    &&& (if a.event is Push { h.tasks[a.tid@].node.s_kind() == NodeKind::Step } else { h.tasks[a.tid@].node.s_kind() == NodeKind::Act })
+    &&& h.tasks[a.tid@].node.s_outputs()@.dom().subset_of(a.options@.dom())
+}
+impl Process {
+//@@ extract file=acts/src/scheduler/process/process.rs in="impl Process" item="fn do_action" name=Process::do_action props=C05,C07,C02
+//@@ opt noheap=outputs
+//@@ rw R12 `for ( ref key , _ ) in & rets` => `for key in rets.keys_vec().iter()`
+//@@ spec
+        requires old(h).wf()
+        ensures
+            //# A-do-action-fwd
+            final(h).wf() && fwd(*old(h), *final(h)),
+            //# A1-accepted-only-if-admissible
+            ret is Ok ==> admissible(*old(h), *action),
+            //# A2-inadmissible-rejected-without-effect
+            !admissible(*old(h), *action) ==> ret is Err && *final(h) == *old(h),
+            //# A2-terminal-act-rejects-everything
+            admissible(*old(h), *action) && guarded_event(action.event) && st_terminal(old(h).st(action.tid@)) ==> ret is Err && final(h).tasks == old(h).tasks
+                && final(h).queue == old(h).queue && final(h).task_events == old(h).task_events && final(h).proc_events == old(h).proc_events && final(h).msg_closed == old(h).msg_closed
+                && final(h).proc_state == old(h).proc_state,
+//@@ loop 1
+        invariant
+            //# A3-options-filtered-so-far
+            forall|j: int| 0 <= j < __i1 ==> action.options@.dom().contains(#[trigger] __v1@[j]@) && options@.dom().contains(__v1@[j]@) && options@[__v1@[j]@] == action.options@[__v1@[j]@],
+            //# A3-only-declared-keys
+            forall|k: Seq<char>| options@.dom().contains(k) ==> exists|j: int| 0 <= j < __i1 && #[trigger] __v1@[j]@ == k,
+            //# heap-untouched
+            *h == *old(h),
 //@@ end
 }
 
